@@ -96,6 +96,19 @@ func (c *Ctx) Tags() []string {
 		if o.Fault != nil {
 			t["fault"] = true
 		}
+		for _, cl := range o.Calls {
+			if len(cl.F) > 1 && cl.F[0] == 'S' && cl.F != "SMembers" {
+				if cl.F == "SAdd" || cl.F == "SRem" {
+					for _, v := range cl.Vs {
+						if v == "" {
+							t["empty-member"] = true
+						}
+					}
+				} else if cl.V == "" && (cl.F == "SMoveByOneBucket" || cl.F == "SMoveByTwoBuckets") {
+					t["empty-member"] = true
+				}
+			}
+		}
 	}
 	if c.Inst != nil {
 		if m, _ := filepath.Glob(filepath.Join(c.Inst.Dir, "*.dat")); len(m) > 1 {
